@@ -14,7 +14,7 @@ import (
 func init() {
 	register(&Prop{
 		ID:          "C04",
-		Explanation: "Decides that sessions are built from claims only behind token verification: idTokenVerifier.Verify returns a token only when go-oidc's Verify returned it without error and verifyAudience's verdict was true; verifyAudience/isValidAudience are true only on a membership hit of a token audience in allowedAudiences, whose only writer is NewVerifier (keys: ClientID, ExtraAudiences); every oidc.Config literal leaves expiry and signature checks on and takes SkipIssuerCheck from SkipIssuerVerification alone (SkipClientIDCheck:true is accepted because the own audience check is proven); createSession / CreateSessionFromToken / the bearer closure build a session from the raw token only on paths where that same token passed Verify (sole exception: refresh with ErrMissingIDToken, where the token string is empty); the email_verified gate guards every success return of the two claim readers; the bearer loader list holds only provider.CreateSessionFromToken and CreateTokenToSessionFunc(verifier.Verify); every override of CreateSessionFromToken/RefreshSession/Redeem on an OIDC-embedding provider succeeds only after the embedded implementation succeeded; the claim extractor's token document is set once and never mutated, and GetClaim returns a profile-endpoint value only after the token lookup for that claim returned nothing. Added during the build: buildSessionFromClaims reads a claim from the verified token's claims before any profile-URL fallback (R7).",
+		Explanation: "Decides that sessions are built from claims only behind token verification: idTokenVerifier.Verify returns a token only when go-oidc's Verify returned it without error and verifyAudience's verdict was true; verifyAudience/isValidAudience are true only on a membership hit of a token audience in allowedAudiences, whose only writer is NewVerifier (keys: ClientID, ExtraAudiences); every oidc.Config literal leaves expiry and signature checks on and takes SkipIssuerCheck from SkipIssuerVerification alone (SkipClientIDCheck:true is accepted because the own audience check is proven); createSession / CreateSessionFromToken / the bearer closure build a session from the raw token only on paths where that same token passed Verify (sole exception: refresh with ErrMissingIDToken, where the token string is empty); the email_verified gate guards every success return of the two claim readers; the bearer loader list holds only provider.CreateSessionFromToken and CreateTokenToSessionFunc(verifier.Verify); every override of CreateSessionFromToken/RefreshSession/Redeem on an OIDC-embedding provider succeeds only after the embedded implementation succeeded; the claim extractor's token document is set once and never mutated, and GetClaim returns a profile-endpoint value only after the token lookup for that claim returned nothing. Added during the build: buildSessionFromClaims reads a claim from the verified token's claims before any profile-URL fallback (R7). Every go-oidc Claims() target is a variable of the calling invocation, so claims absent from one token cannot be inherited from another (R8).",
 		NotDecided:  "claim-value equality between token and session fields; go-oidc's signature/issuer/expiry code (trusted when not told to skip); the legacy Azure provider's extractClaimsIntoSession (verifies either token, reads the ID token's claims) is listed as an unclaimed site.",
 		Run:         runC04,
 	})
@@ -27,6 +27,7 @@ func runC04(c *Ctx) {
 	r.Rule("R3-same-token", "claims are read only from the token that passed Verify on this path", 6)
 	r.Rule("R4-email-verified", "email_verified gate on every success return of the claim readers", 5)
 	r.Rule("R5-bearer-loaders", "bearer loader list = provider.CreateSessionFromToken + CreateTokenToSessionFunc(verifier.Verify)", 2)
+	r.Rule("R8-claims-target-fresh", "every go-oidc Claims() target is a variable allocated in the calling invocation", 3)
 	r.Rule("R7-token-claims-first", "token claims are immutable after construction and take precedence; profile values only for claims the token lacks", 4)
 	r.Rule("R6-overrides-delegate", "OIDC-embedding providers' overrides succeed only after the embedded implementation succeeded", 8)
 
@@ -36,6 +37,8 @@ func runC04(c *Ctx) {
 	runC04R5(c)
 	runC04R6(c)
 	runC04R7(c)
+	runC04R8(c, "R8-claims-target-fresh")
+	runIssuerCheckOn(c, "R2-oidc-config")
 }
 
 func runC04R1(c *Ctx) {
@@ -744,4 +747,92 @@ func runC04R7(c *Ctx) {
 			c.bad(rule, key, p.Exit, "GetClaim reads from a claim document that is neither the token's nor the profile's", p, at)
 		}
 	})
+}
+
+// runC04R8: token claims are decoded into an object that belongs to this invocation. Every
+// (*oidc.IDToken).Claims / (*oidc.UserInfo).Claims target in the module is a variable allocated in
+// the calling function activation — never a captured variable of an enclosing constructor, a global
+// or a field of a long-lived receiver, where claims absent from the current token would keep the
+// values of an earlier one.
+func runC04R8(c *Ctx, rule string) {
+	n := 0
+	for _, fn := range c.P.ModFns {
+		for _, b := range fn.Blocks {
+			for _, in := range b.Instrs {
+				call, ok := in.(*ssa.Call)
+				if !ok {
+					continue
+				}
+				sc := call.Call.StaticCallee()
+				if sc == nil || sc.Name() != "Claims" || sc.Pkg == nil || sc.Pkg.Pkg.Path() != "github.com/coreos/go-oidc/v3/oidc" || len(call.Call.Args) != 2 {
+					continue
+				}
+				n++
+				key := "claims-target|" + fnKey(fn)
+				target := unwrap(call.Call.Args[1])
+				switch t := target.(type) {
+				case *ssa.Alloc:
+					if t.Parent() == fn {
+						c.ok(rule, key, in, "decoded into a variable of this invocation")
+						continue
+					}
+				}
+				c.R.Bad(rule, key, c.pos(in), sprintf("token claims are decoded into %s, which outlives this invocation: claims the current token lacks keep the values of an earlier token", describeValue(target)), nil, nil)
+			}
+		}
+	}
+	if n == 0 {
+		c.R.Unknown(rule, "claims-target|none", "-", "no go-oidc Claims call found in the module")
+	}
+}
+
+func describeValue(v ssa.Value) string {
+	switch x := v.(type) {
+	case *ssa.FreeVar:
+		return "the captured variable " + x.Name()
+	case *ssa.Global:
+		return "the global " + x.Name()
+	case *ssa.FieldAddr:
+		return "a field of " + x.X.Name()
+	case *ssa.Parameter:
+		return "the parameter " + x.Name()
+	}
+	return "a value of another function (" + v.Name() + ")"
+}
+
+// runIssuerCheckOn: issuer verification is switched off only by the operator's explicit option. Every
+// write of ProviderVerifierOptions.SkipIssuerVerification (composite literal or later store) takes its
+// value from OIDCOptions.InsecureSkipIssuerVerification or is the constant false (C04.R2, also C01:
+// bearer tokens of extra issuers are verified through these options).
+func runIssuerCheckOn(c *Ctx, rule string) {
+	skipF := c.Field(rule, "pkg/providers/oidc.ProviderVerifierOptions.SkipIssuerVerification")
+	optF := c.Field(rule, "pkg/apis/options.OIDCOptions.InsecureSkipIssuerVerification")
+	if skipF == nil || optF == nil {
+		return
+	}
+	n := 0
+	for _, ref := range c.fieldRefs(skipF) {
+		if ref.Store == nil {
+			continue
+		}
+		n++
+		key := "skip-issuer-write|" + fnKey(ref.Fn)
+		v := unwrap0(ref.Store.Val)
+		fromOption := walk.IsFieldLoad(v, optF)
+		if f, ok := v.(*ssa.Field); ok && walk.FieldOf(f.X.Type(), f.Field) == optF {
+			fromOption = true
+		}
+		k, isConst := v.(*ssa.Const)
+		switch {
+		case fromOption:
+			c.ok(rule, key, ref.In, "from the operator's insecure-skip-issuer-verification option")
+		case isConst && k.Value != nil && k.Value.String() == "false":
+			c.ok(rule, key, ref.In, "constant false")
+		default:
+			c.R.Bad(rule, key, c.pos(ref.In), "issuer verification is switched off by something other than the operator's explicit option: tokens of a foreign issuer signed with the same keys are accepted", nil, nil)
+		}
+	}
+	if n == 0 {
+		c.R.Unknown(rule, "skip-issuer-write|none", "-", "no write of ProviderVerifierOptions.SkipIssuerVerification found")
+	}
 }
